@@ -56,6 +56,11 @@ func init() {
 	probes["O53"] = probeO53
 	probes["O54"] = probeO54
 	probes["O55"] = probeO55
+	probes["O62"] = func() (bool, string) {
+		c, _ := ucfg.NewFrom(map[string]interface{}{"a": map[string]interface{}{"b": []int{1, 2}}})
+		n, err := c.CountField("a.b", ucfg.PathSep("."))
+		return err != nil || n != 2, fmt.Sprint(n, " ", err)
+	}
 	probes["O56"] = probePanics(func() {
 		var t struct{ X ucfg.Initializer }
 		ucfg.New().Unpack(&t)
